@@ -94,6 +94,27 @@ pub(crate) fn split_to_checked(
     Ok(buf.split_to(len))
 }
 
+/// Reads exactly `len` bytes from `reader`.
+///
+/// `len` usually comes from the wire, so the buffer is grown as the data
+/// actually arrives instead of being allocated (and zeroed) up front: a
+/// corrupted or hostile length cannot make the reader allocate gigabytes for a
+/// message of a few bytes.
+pub(crate) async fn read_exact_to_vec<R>(reader: &mut R, len: usize) -> std::io::Result<Vec<u8>>
+where
+    R: tokio::io::AsyncRead + Unpin,
+{
+    use tokio::io::AsyncReadExt;
+
+    const MAX_PREALLOC: usize = 64 * 1024;
+    let mut v = Vec::with_capacity(len.min(MAX_PREALLOC));
+    let n = reader.take(len as u64).read_to_end(&mut v).await?;
+    if n != len {
+        return Err(std::io::ErrorKind::UnexpectedEof.into());
+    }
+    Ok(v)
+}
+
 pub trait WriteExt {
     fn write_slice(&mut self, src: &[u8]);
     fn write_u8(&mut self, n: u8);
